@@ -679,3 +679,14 @@ Example C15_example_scan :
   scan (b " {""tags"":[""a}"",""b\""]""]} x") = Some 23%nat /\
   scan (b " {""tags"":[""a}"",""b\""]""]") = None.
 Proof. vm_compute. split; reflexivity. Qed.
+
+(* the bytes of a metadata answer the client consumes (limitReader, then json.Decoder's buffer
+   refills, as modelled and compared with a counting body on every decoded answer): never more
+   than MaxMetadataBytes, never more than the body, at least the document when it fits *)
+Theorem C15_bytes_consumed :
+  forall limit docend total,
+    (Z.of_N (consumed_of limit docend total) <= eff_limit limit)%Z /\
+    consumed_of limit docend total <= total /\
+    (docend <= total -> (Z.of_N docend <= eff_limit limit)%Z -> docend <= consumed_of limit docend total).
+Proof. exact consumed_of_spec. Qed.
+Print Assumptions C15_bytes_consumed.
